@@ -149,6 +149,7 @@ type Log struct {
 	NotAfterLimit    time.Time
 	entrySeed        uint64
 	certKey          *ecdsa.PrivateKey
+	entries          map[int]*ctlog.PendingLogEntry
 }
 
 func newLockDB(path string) error {
@@ -248,6 +249,19 @@ func (l *Log) Close() {
 // Entry returns the i-th entry of this log's deterministic entry stream: real
 // X.509 certificates (some as precertificate entries) with one or two issuers.
 func (l *Log) Entry(i int) *ctlog.PendingLogEntry {
+	// ECDSA signing is deliberately not reproducible in Go: remember what was generated
+	if e, ok := l.entries[i]; ok {
+		return e
+	}
+	if l.entries == nil {
+		l.entries = map[int]*ctlog.PendingLogEntry{}
+	}
+	e := l.makeEntry(i)
+	l.entries[i] = e
+	return e
+}
+
+func (l *Log) makeEntry(i int) *ctlog.PendingLogEntry {
 	r := NewRng(l.entrySeed*1000003 + uint64(i))
 	cn := fmt.Sprintf("e%d.%s.example", i, l.Short)
 	tmpl := &x509.Certificate{
